@@ -15,6 +15,7 @@ import Grenad.Model.Spec
 import Grenad.Model.Merger
 import Grenad.Model.Sorter
 import Grenad.Model.IO
+import Grenad.Model.WriterIO
 
 open Grenad
 
@@ -206,14 +207,6 @@ def countEntries (raw : Bytes) : Nat :=
 def fmtBlocks (log : List Emitted) : String :=
   ",".intercalate (log.map (fun e => s!"{e.level}:{e.offset}:{e.raw.length}:{countEntries e.raw}"))
 
-/-- The `write_all` calls issued for the blocks `log` (two per block). -/
-def writesOf (cd : Codec) (log : List Emitted) : List Bytes :=
-  log.flatMap (fun e => let body := cd.compress e.raw; [be64 body.length, body])
-
-/-- The five `write_all` calls of `Metadata::write_into` (V2). -/
-def trailerWrites (m : Meta.Meta) : List Bytes :=
-  [le64 m.root, [UInt8.ofNat m.codec], le64 m.count, [UInt8.ofNat m.levels], le32 Meta.magicV2]
-
 def parseSched (s : String) : List IOM.WResp :=
   if s = "-" then [] else
   (s.splitOn ",").filterMap (fun t => match t.toList with
@@ -227,7 +220,7 @@ def St.flushWrites (st : St) (w : W) (extra : List Bytes) : St × Option Nat :=
   match st.wsched with
   | none => ({ st with flushed := w.log.length }, none)
   | some sch =>
-    let ws := writesOf st.codec (w.log.drop st.flushed) ++ extra
+    let ws := W.blockWrites st.codec (w.log.drop st.flushed) ++ extra
     let (sink, sch, r) := IOM.writeMany ws st.sink sch
     ({ st with sink := sink, wsched := some sch, flushed := w.log.length }, r)
 
@@ -355,7 +348,7 @@ def stepLine (st : St) (line : String) : St × String :=
       match W.finish st.codec w with
       | .ok (file, log) =>
         let m : Meta.Meta := (Meta.parse file).toOption.getD default
-        let (st, r) := st.flushWrites { w with log := log } (trailerWrites m)
+        let (st, r) := st.flushWrites { w with log := log } (W.trailerWrites m)
         (match r with
          | none =>
            let st := if st.wsched.isNone then { st with sink := { data := file, count := file.length } } else st
